@@ -19,6 +19,19 @@ CHECKS = {
     ),
 }
 
+
+CONN_TEXT = ("Seeded search over schedules, fault plans and application/protocol workloads with 2-4 complete litep2p nodes (real TransportManager, peer state machine, TCP transport, Noise, yamux, ProtocolSet, TransportService) carrying two probe user protocols each, on a simulated network and clock; every observable event goes into one totally ordered history that the oracle examines at the horizon, after a fault-free final phase which re-dials every disconnected pair. ")
+CHECKS.update({
+    "C05": dict(engine="nodesim", technique="deterministic simulation: seeded schedules + fault injection over whole litep2p nodes; dial-outcome ledger oracle + final re-dial phase",
+        text=CONN_TEXT + "C05 oracle: every accepted dial (by peer id, by well-formed or adversarial address) is followed by a connection with that peer or a failure naming a dialed address, never silence; dial outcomes never outnumber accepted dial calls (no duplicate/both); failures only name addresses that were dialed; malformed addresses are refused or fail, never panic or wedge; in the final phase every disconnected pair can be dialed again and the dial is attempted.", ref="DESIGN.md §5 C05"),
+    "C06": dict(engine="nodesim", technique="deterministic simulation: seeded schedules + fault injection over whole litep2p nodes; connection-count model against SimNet ground truth",
+        text=CONN_TEXT + "C06 oracle: application-level ConnectionEstablished events are mapped to the simulated network connections they refer to; at every such event the number of accepted-and-still-alive inbound/outbound connections is within the configured limits and at most two per peer; in the final phase a node with free capacity accepts a new connection (capacity was released).", ref="DESIGN.md §5 C06"),
+    "C07": dict(engine="nodesim", technique="deterministic simulation: seeded schedules + fault injection (resets, half-close, partitions, kills, protocol exits) over whole litep2p nodes; close-event agreement oracle",
+        text=CONN_TEXT + "C07 oracle: ConnectionClosed is never reported before a matching ConnectionEstablished; once every network connection between two live nodes has ended, the application and every still-running protocol have been told (agreement at quiescence); a peer whose connections have all ended is not reported AlreadyConnected and can be re-dialed; after a protocol shut down, remaining protocols are still told about new connections and re-dials on a healthy network succeed.", ref="DESIGN.md §5 C07"),
+    "C08": dict(engine="nodesim", technique="deterministic simulation: seeded schedules + fault injection over whole litep2p nodes; per-protocol event-grammar oracle",
+        text=CONN_TEXT + "C08 oracle per protocol and peer: established/closed strictly alternate starting with established (also with two overlapping connections from simultaneous dials); substream events only while connected; open_substream returns Ok only while connected; outbound substream ids are never reused across the protocols of a node; every accepted open is answered at most once with the same id, and exactly once unless a connection to that peer ended, the connection was force-closed or the protocol exited.", ref="DESIGN.md §5 C08"),
+})
+
 NOT_BUILT = {
 }
 
